@@ -510,6 +510,8 @@ def main(prop, argv):
             'known_finding_instances_in_stream': stats['known_instances'],
             'search_cases': stats.get('search_cases', 0),
             'exhaustive': bool(getattr(prop, 'EXHAUSTIVE', False)),
+            'agent_log_records_formatted': LOG_SINK.records if LOG_SINK else 0,
+            'agent_log_format_errors': LOG_SINK.format_errors if LOG_SINK else 0,
             'tie_broken': broken,
             'unreproducible_observations': unreproducible[:3],
             'tie': ('correspondence-only: ' + '; '.join(primary_failure))[:1500] if fallback else 'translation regenerated from the current source + correspondence',
